@@ -66,9 +66,32 @@ fn run_case(case: &J, config: &Config, format: bool) -> Result<J, String> {
         return Ok(result);
     }
 
+    let raw = analyse_and_run(case, config, &veryl, top, true)?;
+    for k in ["parse", "analyze", "errors", "build", "trace", "rst_typed"] {
+        result[k] = raw[k].clone();
+    }
+    // documented repairs of known findings (textual replacements on the produced Veryl), applied only
+    // when the raw output has analyzer errors; the repaired text is then analysed and simulated
+    if let Some(reps) = case["repairs"].as_array() {
+        let has_err = raw["errors"].as_array().map(|a| !a.is_empty()).unwrap_or(false);
+        if has_err && !reps.is_empty() {
+            let mut fixed = veryl.clone();
+            for r in reps {
+                fixed = fixed.replace(r[0].as_str().unwrap(), r[1].as_str().unwrap());
+            }
+            let rep = analyse_and_run(case, config, &fixed, top, true)?;
+            result["repaired"] = rep;
+            result["repaired_veryl"] = J::String(fixed);
+        }
+    }
+    Ok(result)
+}
+
+fn analyse_and_run(case: &J, config: &Config, veryl: &str, top: &str, simulate: bool) -> Result<J, String> {
+    let mut result = json!({"parse": J::Null, "analyze": [], "errors": [], "build": J::Null, "trace": J::Null});
     symbol_table::clear();
     let metadata = Metadata::create_default("prj").map_err(|e| format!("ERR metadata {e}"))?;
-    let parser = match Parser::parse(&veryl, &"") {
+    let parser = match Parser::parse(veryl, &"") {
         Ok(p) => p,
         Err(e) => {
             let msg = format!("{e:?}");
@@ -168,6 +191,7 @@ fn run_case(case: &J, config: &Config, format: bool) -> Result<J, String> {
         }
         trace.push(J::Array(row));
     }
+    let _ = simulate;
     result["trace"] = J::Array(trace);
     result["rst_typed"] = J::Bool(rst_event.is_some());
     Ok(result)
